@@ -22,7 +22,11 @@ Check ==
     /\ \A a, b \in errs : a = b                                            \* one outcome, everywhere, forever
     /\ errs # {} =>
          LET e == CHOOSE x \in errs : TRUE IN
-         /\ IF e[1] = "local" THEN closes # <<>> /\ closes[1] = e[2] ELSE closes = <<>>
+         \* a locally detected error closes the transport with exactly its code; an internal error of the QUIC layer may make h3
+         \* close with H3_INTERNAL_ERROR; a remote close or a timeout is not answered with a close
+         /\ CASE e[1] = "local" -> closes # <<>> /\ closes[1] = e[2]
+              [] e[1] = "transport_internal" -> closes = <<>> \/ closes[1] = 258
+              [] OTHER -> closes = <<>>
          /\ ~fin.driver_parked                                            \* the driver has been reached
          /\ ~pendingLater                                                 \* and reports it on every later call
     /\ errs = {} => closes = <<>>
